@@ -4,9 +4,10 @@
     - the fuel of the refill loop is never the reason for its result;
     - the number of values held in the queues is bounded by the bytes consumed
       since [qr_new]: each queue by 8 * consumed, all together by
-      8 * (1 + number of zero-width records) * consumed;
+      8 * consumed as well (records of zero width are not stored: their queues stay empty);
     - [raw_next] stays inside the reachable states;
-    - the factor (1 + zero_count) is reached: [queue_amplification]. *)
+    - (before repair 803272f of the crate the total was 8 * (1 + number of zero-width records) * consumed,
+      and that factor was attained; [zero_width_no_values] is the same input on the repaired model). *)
 From E57 Require Import Base.Prelude Model.Crc Model.Device Model.PagedReader Spec.PageReadSpec Model.Prog
   Model.BsRead Model.Record Model.QueueReader.
 From E57 Require Import Proofs.PageSpecLemmas Proofs.QueueReaderLemmas Proofs.PagedReaderCache
@@ -74,12 +75,12 @@ Qed.
 
 (** * The queue bound is an invariant *)
 
-Theorem qbound_new : forall ps phys (s : pr) fo proto s' q,
-  pr_inv ps phys s -> rrun (qr_new fo proto) s = (s', Ok q) ->
+Theorem qbound_new : forall ps phys (s : pr) fo recs proto s' q,
+  pr_inv ps phys s -> rrun (qr_new fo recs proto) s = (s', Ok q) ->
   qshape q /\ qbound (pr_off s') q (pr_off s') /\ q_proto q = proto.
 Proof.
-  intros ps phys s fo proto s' q I E.
-  pose proof (wpp_rrun_ok ps phys _ _ s s' q I (wpp_qr_new ps (pr_log_size s) fo proto (pr_off s)) E) as Hq.
+  intros ps phys s fo recs proto s' q I E.
+  pose proof (wpp_rrun_ok ps phys _ _ s s' q I (wpp_qr_new ps (pr_log_size s) fo recs proto (pr_off s)) E) as Hq.
   cbv beta in Hq. subst q.
   unfold qshape, qbound. cbn [q_proto q_streams q_queues].
   rewrite !map_length, sized_pot_new.
@@ -100,33 +101,27 @@ Proof.
 Qed.
 
 Theorem qbound_pop : forall off0 q off vs qs,
-  qshape q -> qbound off0 q off -> pop_fronts (q_queues q) = Ok (vs, qs) ->
+  qshape q -> qbound off0 q off -> pop_fronts (q_proto q) (q_queues q) = Ok (vs, qs) ->
   qshape (mkQr (q_proto q) (q_streams q) qs) /\ qbound off0 (mkQr (q_proto q) (q_streams q) qs) off.
 Proof.
   intros off0 q off vs qs [L1 L2] (B1 & B2 & B3) E.
-  destruct (pop_fronts_pot _ _ _ E) as (PL & PP).
-  destruct (PP (q_proto q)) as (PP1 & PP2).
+  destruct (pop_fronts_pot _ _ _ _ E) as (PL & PP1 & PP2).
+  specialize (PL L2).
   unfold qshape, qbound. cbn [q_proto q_streams q_queues].
   split; [split; congruence|].
   split; [exact B1|]. split; [|apply PP2; exact B3].
   specialize (PP1 (q_streams q)). lia.
 Qed.
 
-Lemma amplification_arith SP ZC D T : SP <= 8 * D -> T <= SP + ZC * (8 * D) -> T <= 8 * (1 + ZC) * D.
-Proof.
-  intros H1 H2. replace (8 * (1 + ZC) * D) with (8 * D + ZC * (8 * D)) by ring.
-  set (X := ZC * (8 * D)) in *. clearbody X. lia.
-Qed.
-
 Theorem qbound_values : forall off0 q off,
   qshape q -> qbound off0 q off ->
   Forall (fun x => len x <= 8 * (off - off0)) (q_queues q) /\
-  total_values q <= 8 * (1 + zero_count (q_proto q)) * (off - off0).
+  total_values q <= 8 * (off - off0) /\
+  zero_bounded 0 (q_proto q) (q_queues q).
 Proof.
   intros off0 q off [L1 L2] (B1 & B2 & B3).
   destruct (values_from_pot _ _ _ _ L1 L2 B2 B3) as [HF HT].
-  split; [exact HF|]. unfold total_values.
-  eapply amplification_arith; eassumption.
+  split; [exact HF|]. split; [unfold total_values; lia|exact B3].
 Qed.
 
 (** * Reachable states of the packet reader *)
@@ -134,9 +129,9 @@ Qed.
 Lemma qreach_inv : forall ps phys off0 q s, qreach ps phys off0 q s ->
   pr_inv ps phys s /\ qshape q /\ qbound off0 q (pr_off s).
 Proof.
-  intros ps phys off0 q s H. induction H as [s fo proto s' q I E Eo|q s q' s' H IH E|q s vs qs H IH E].
-  - destruct (qbound_new ps phys s fo proto s' q I E) as (H1 & H2 & _).
-    pose proof (rrun_preserves_inv ps phys _ (qr_new fo proto) s I) as I1.
+  intros ps phys off0 q s H. induction H as [s fo recs proto s' q I E Eo|q s q' s' H IH E|q s vs qs H IH E].
+  - destruct (qbound_new ps phys s fo recs proto s' q I E) as (H1 & H2 & _).
+    pose proof (rrun_preserves_inv ps phys _ (qr_new fo recs proto) s I) as I1.
     rewrite E in I1. cbn [fst] in I1. subst off0. auto.
   - destruct IH as (I & Hs & Hb).
     destruct (qbound_advance ps phys s q s' q' off0 I Hs Hb E) as (H1 & H2 & _).
@@ -149,11 +144,12 @@ Qed.
 Theorem queue_bound : forall ps phys off0 q s, qreach ps phys off0 q s ->
   pr_inv ps phys s /\ off0 <= pr_off s /\
   Forall (fun x => len x <= 8 * (pr_off s - off0)) (q_queues q) /\
-  total_values q <= 8 * (1 + zero_count (q_proto q)) * (pr_off s - off0).
+  total_values q <= 8 * (pr_off s - off0) /\
+  zero_bounded 0 (q_proto q) (q_queues q).
 Proof.
   intros ps phys off0 q s H. destruct (qreach_inv _ _ _ _ _ H) as (I & Hs & Hb).
-  destruct (qbound_values off0 q (pr_off s) Hs Hb) as [HF HT].
-  split; [exact I|]. split; [exact (proj1 Hb)|]. split; assumption.
+  destruct (qbound_values off0 q (pr_off s) Hs Hb) as (HF & HT & HZ).
+  split; [exact I|]. split; [exact (proj1 Hb)|]. split; [exact HF|]. split; assumption.
 Qed.
 
 Lemma refill_qreach : forall ps phys off0 f q s s' q',
@@ -179,14 +175,15 @@ Proof.
   destruct (rrun (refill (refill_fuel ls) (ri_q it)) s) as [s1 r] eqn:E.
   destruct r as [q1|k|]; [|discriminate|discriminate].
   pose proof (refill_qreach ps phys off0 _ _ _ _ _ H E) as H1.
-  destruct (pop_fronts (q_queues q1)) as [[vs qs]|k|] eqn:Ep; cbn [rrun rret rfail];
+  destruct (pop_fronts (q_proto q1) (q_queues q1)) as [[vs qs]|k|] eqn:Ep; cbn [rrun rret rfail];
     [|discriminate|discriminate].
   intros E2. injection E2 as <- <- _. cbn [ri_q].
   eapply QR_pop; eassumption.
 Qed.
 
-(** * The factor (1 + zero_count) is reached: one data packet with [k] bytes of a
-    1-bit record and three zero-width records yields 4 * 8 * k queued values. *)
+(** * Records of zero width hold no values: one data packet with [k] bytes of a
+    1-bit record and three zero-width records yields 8 * k queued values (before the
+    repair of the crate: 4 * 8 * k). *)
 
 Definition amp_k : N := 100.
 Definition amp_proto : list dtype := [TInteger 0 1; TInteger 5 5; TInteger 5 5; TInteger 5 5].
@@ -208,7 +205,7 @@ Definition amp_s0 : pr :=
   | Ok s => s
   | _ => mkPr (dev_init [] None) 0 0 0 0 0 None []
   end.
-Definition amp_r1 := rrun (qr_new 48 amp_proto) amp_s0.
+Definition amp_r1 := rrun (qr_new 48 10 amp_proto) amp_s0.
 Definition amp_s1 : pr := fst amp_r1.
 Definition amp_q0 : qr := match snd amp_r1 with Ok q => q | _ => mkQr [] [] [] end.
 Definition amp_r2 := rrun (qr_advance amp_q0) amp_s1.
@@ -218,7 +215,7 @@ Definition amp_q1 : qr := match snd amp_r2 with Ok q => q | _ => mkQr [] [] [] e
 Lemma amp_new : exists d, pr_new 1024 (dev_init amp_phys None) = (d, Ok amp_s0).
 Proof. eexists (fst (pr_new 1024 (dev_init amp_phys None))). vm_compute. reflexivity. Qed.
 
-Lemma amp_e1 : rrun (qr_new 48 amp_proto) amp_s0 = (amp_s1, Ok amp_q0).
+Lemma amp_e1 : rrun (qr_new 48 10 amp_proto) amp_s0 = (amp_s1, Ok amp_q0).
 Proof. vm_compute. reflexivity. Qed.
 
 Lemma amp_e2 : rrun (qr_advance amp_q0) amp_s1 = (amp_s2, Ok amp_q1).
@@ -227,14 +224,15 @@ Proof. vm_compute. reflexivity. Qed.
 Lemma amp_inv0 : pr_inv 1024 amp_phys amp_s0.
 Proof. destruct amp_new as [d E]. exact (proj1 (pr_new_inv 1024 amp_phys d amp_s0 E)). Qed.
 
-Example queue_amplification :
+Example zero_width_no_values :
   (exists d, pr_new 1024 (dev_init amp_phys None) = (d, Ok amp_s0)) /\
-  rrun (qr_new 48 amp_proto) amp_s0 = (amp_s1, Ok amp_q0) /\
+  rrun (qr_new 48 10 amp_proto) amp_s0 = (amp_s1, Ok amp_q0) /\
   rrun (qr_advance amp_q0) amp_s1 = (amp_s2, Ok amp_q1) /\
   pr_off amp_s1 = 80 /\ pr_off amp_s2 = 80 + (14 + amp_k + 2) /\
   zero_count (q_proto amp_q1) = 3 /\
   total_values amp_q0 = 0 /\
-  total_values amp_q1 = 4 * 8 * amp_k.
+  total_values amp_q1 = 8 * amp_k /\
+  map (@length rvalue) (q_queues amp_q1) = [800; 0; 0; 0]%nat.
 Proof.
   split; [exact amp_new|]. split; [exact amp_e1|]. split; [exact amp_e2|].
   vm_compute. repeat split; reflexivity.
@@ -253,8 +251,8 @@ Proof. eapply QR_adv; [exact amp_reach0|exact amp_e2]. Qed.
     [fuel_refill] and [raw_next_qreach] are satisfiable, on the device above *)
 Example queue_bound_example :
   qreach 1024 amp_phys 80 amp_q1 amp_s2 /\
-  total_values amp_q1 = 3200 /\
-  8 * (1 + zero_count (q_proto amp_q1)) * (pr_off amp_s2 - 80) = 3712.
+  total_values amp_q1 = 800 /\
+  8 * (pr_off amp_s2 - 80) = 928.
 Proof. split; [exact amp_reach|]. vm_compute. split; reflexivity. Qed.
 
 Example progress_example :
@@ -271,7 +269,7 @@ Example raw_next_example :
   exists s' it' vs,
     rrun (raw_next (pr_log_size amp_s1) (mkRaw amp_q0 10 0)) amp_s1 = (s', Ok (it', Item vs)) /\
     vs = [VInteger 1; VInteger 5; VInteger 5; VInteger 5] /\
-    total_values (ri_q it') = 3196 /\
+    total_values (ri_q it') = 799 /\
     qreach 1024 amp_phys 80 (ri_q it') s'.
 Proof.
   pose (r := rrun (raw_next (pr_log_size amp_s1) (mkRaw amp_q0 10 0)) amp_s1).
@@ -294,6 +292,6 @@ Print Assumptions qbound_pop.
 Print Assumptions qbound_values.
 Print Assumptions queue_bound.
 Print Assumptions raw_next_qreach.
-Print Assumptions queue_amplification.
+Print Assumptions zero_width_no_values.
 Print Assumptions queue_bound_example.
 Print Assumptions raw_next_example.
